@@ -78,9 +78,11 @@ theorem InvR.updEff {p : Prog} {s : State} (h : InvR p s) {e : Nat} (hk : (s.get
   · intro i hki hri hv
     rw [kE] at hki
     rw [go i (ne_of_memo i hki)] at hri hv ⊢; exact h.valNone i hki hri hv
-  · intro i hki hri hst ρ hρ
+  · intro i hki hri hst
     rw [kE] at hki
-    rw [go i (ne_of_memo i hki)] at hri hst hρ ⊢; exact h.replay i hki hri hst ρ hρ
+    have g := go i (ne_of_memo i hki)
+    rw [g] at hri hst
+    exact (h.replay i hki hri hst).congr (by rw [g]) (by rw [g])
   · intro i hki hri hst x hx
     rw [kE] at hki
     rw [go i (ne_of_memo i hki)] at hri hst hx
@@ -193,9 +195,9 @@ theorem clearSources_inv_eff {p : Prog} {s s2 : State} {e : Nat} (h : InvR p s)
   · intro i hki hri hv
     rw [kE] at hki; rw [(same i).2.2.1] at hri; rw [(same i).1] at hv; rw [(same i).2.1]
     exact h.valNone i hki hri hv
-  · intro i hki hri hst ρ hρ
-    rw [kE] at hki; rw [(same i).2.2.1] at hri; rw [(same i).2.1] at hst; rw [(same i).2.2.2.1] at hρ
-    rw [(same i).1]; exact h.replay i hki hri hst ρ hρ
+  · intro i hki hri hst
+    rw [kE] at hki; rw [(same i).2.2.1] at hri; rw [(same i).2.1] at hst
+    exact (h.replay i hki hri hst).congr (same i).2.2.2.1 (same i).1
   · intro i hki hri hst x hx
     rw [kE] at hki; rw [(same i).2.2.1] at hri; rw [(same i).2.1] at hst; rw [(same i).2.2.2.1] at hx
     rw [(same x.1).2.2.1, (same x.1).1]; exact h.srcVal i hki hri hst x hx
@@ -338,31 +340,6 @@ theorem evalEff_spec {p : Prog} {u : State → Nat → State × Bool} {f : Nat} 
         exact l1.only r hr
 
 /-! ## quiescent states and the effect task -/
-
-/-- `InvR` does not depend on the log, and on `obs` only through `obsRun` -/
-theorem InvR.reobs {p : Prog} {s s' : State} (h : InvR p s) (hn : s'.nodes = s.nodes)
-    (ho : ∀ o, s'.obs = some o → (s.get o).running = true) : InvR p s' := by
-  have g : ∀ i, s'.get i = s.get i := by intro i; simp only [State.get, hn]
-  constructor
-  · rw [hn]; exact h.len
-  · intro i d hd; rw [g]; exact h.kind i d hd
-  · intro i hi hk; rw [g] at hk ⊢; exact h.sigOk i hi hk
-  · intro o ho'; rw [g]; exact ho o ho'
-  · intro a w; rw [g, g]; exact h.edge a w
-  · intro a; rw [g]; exact h.nodup a
-  · intro w a ha; rw [g] at ha; exact h.srcLt w a ha
-  · intro r hk hr; rw [g] at hk hr ⊢; exact h.runNC r hk hr
-  · intro a w hka hsa hw hkw; rw [g] at hka hsa hw; rw [g] at hkw ⊢; exact h.closed a w hka hsa hw hkw
-  · intro i hk hr; rw [g] at hk hr ⊢; exact h.srcSeen i hk hr
-  · intro i hk hr hv; rw [g] at hk hr hv ⊢; exact h.valNone i hk hr hv
-  · intro i hk hr hst ρ hρ; rw [g] at hk hr hst hρ ⊢; exact h.replay i hk hr hst ρ hρ
-  · intro i hk hr hst x hx; rw [g] at hk hr hst hx; rw [g]; exact h.srcVal i hk hr hst x hx
-  · intro i hk hr hst hruns
-    rw [g] at hk hr hst hruns
-    obtain ⟨x, hx, hne⟩ := h.verDirty i hk hr hst hruns
-    exact ⟨x, by rw [g]; exact hx, by rw [g]; exact hne⟩
-  · intro w x hx; rw [g] at hx; rw [g]; exact h.verLe w x hx
-  · intro w a ha; rw [g] at ha; rw [g]; exact h.srcData w a ha
 
 structure Quiet (p : Prog) (s : State) : Prop where
   inv : InvR p s
